@@ -30,6 +30,9 @@ pub struct ObsServer {
     pub default_payload: Arc<Mutex<Vec<u8>>>,
     pub served: Arc<AtomicU64>,
     refused: Arc<AtomicBool>,
+    /// the listener is bound *and listening* (the socket file appears at bind(2), a few microseconds before listen(2):
+    /// a connect in between is refused)
+    ready: Arc<AtomicBool>,
     stop: Arc<AtomicBool>,
     handle: Option<std::thread::JoinHandle<()>>,
 }
@@ -40,8 +43,10 @@ impl ObsServer {
         let default_payload = Arc::new(Mutex::new(Vec::new()));
         let served = Arc::new(AtomicU64::new(0));
         let refused = Arc::new(AtomicBool::new(false));
+        let ready = Arc::new(AtomicBool::new(false));
         let stop = Arc::new(AtomicBool::new(false));
         let (s2, d2, sv2, r2, st2, p2) = (script.clone(), default_payload.clone(), served.clone(), refused.clone(), stop.clone(), path.clone());
+        let rd2 = ready.clone();
         let handle = std::thread::spawn(move || {
             let mut listener: Option<UnixListener> = None;
             loop {
@@ -53,6 +58,7 @@ impl ObsServer {
                 r2.store(head_refused, Ordering::Relaxed);
                 if head_refused {
                     if listener.is_some() {
+                        rd2.store(false, Ordering::SeqCst);
                         listener = None;
                         let _ = std::fs::remove_file(&p2);
                     }
@@ -65,6 +71,7 @@ impl ObsServer {
                         Ok(l) => {
                             l.set_nonblocking(true).ok();
                             listener = Some(l);
+                            rd2.store(true, Ordering::SeqCst);
                         }
                         Err(_) => {
                             std::thread::sleep(Duration::from_millis(1));
@@ -99,7 +106,7 @@ impl ObsServer {
             }
             let _ = std::fs::remove_file(&p2);
         });
-        ObsServer { path, script, default_payload, served, refused, stop, handle: Some(handle) }
+        ObsServer { path, script, default_payload, served, refused, ready, stop, handle: Some(handle) }
     }
     /// a "Refused" entry is consumed by the driver once the corresponding HTTP request is over
     pub fn consume_refused(&self) {
@@ -114,7 +121,8 @@ impl ObsServer {
         let t0 = Instant::now();
         while t0.elapsed() < Duration::from_millis(500) {
             let exists = self.path.exists();
-            if self.refused.load(Ordering::Relaxed) == want && exists != want {
+            let ready = self.ready.load(Ordering::SeqCst);
+            if self.refused.load(Ordering::Relaxed) == want && exists != want && ready != want {
                 return;
             }
             std::thread::sleep(Duration::from_micros(200));
